@@ -2,7 +2,8 @@
 
    Vocabulary (FV.C16.Model unless noted):
      rule = (region, submap): condition sets (boxes over normalized coordinates in 1/U units) and
-       the substitutions; rules_wf: boxes built by NBox::insert, >= 1 condition set, maps are maps;
+       the substitutions; rules_wf: boxes built by NBox::insert, maps are maps (any number of condition sets per rule, also none;
+       any number of rules);
      overlay_feature_variations / compile_rules: the model of the code (fontir overlay;
        plus ConditionSets, lookups sorted by content, ConditionSet-keyed records);
      first_match items p: the first box of the overlay containing location p;
@@ -24,40 +25,36 @@ Definition exclusive (U : Z) (rules : list rule) (p : point) : Prop :=
 
 (* ---- the overlay ------------------------------------------------------------------------ *)
 
-(* Up to 64 rules the overlay returns (no index out of bounds), whatever the boxes are. *)
-(* The limit is on the number of rules left after merging rules with equal substitutions and rules
-   with equal regions; merging never adds rules, so "at most 64 rules" is enough. *)
-Theorem merging_never_adds_rules : forall U rules, (length (preflight U rules) <= length rules)%nat.
-Proof. exact preflight_length. Qed.
-Print Assumptions merging_never_adds_rules.
-
-Theorem overlay_total_upto_64 : forall U rules,
-  rules_wf U rules -> (length (preflight U rules) <= 64)%nat -> exists items, overlay_feature_variations U rules = Ok items.
-Proof. intros U rules Hwf Hn. exact (overlay_no_panic U rules Hwf Hn). Qed.
-Print Assumptions overlay_total_upto_64.
+(* The overlay returns (no index out of bounds) whatever the boxes are and however many rules there
+   are: Rank is a correct set of rule indices of any size. *)
+Theorem overlay_total : forall U rules,
+  rules_wf U rules -> exists items, overlay_feature_variations U rules = Ok items.
+Proof. intros U rules Hwf. exact (overlay_no_panic U rules Hwf). Qed.
+Print Assumptions overlay_total.
 
 (* Soundness at EVERY location of the designspace (edges included): a map listed for an output box
    belongs to a rule (after merging equal rules) that fires at every location of the box. *)
 Theorem overlay_sound : forall U rules items,
-  rules_wf U rules -> (length (preflight U rules) <= 64)%nat ->
+  rules_wf U rules ->
   overlay_feature_variations U rules = Ok items ->
   forall b maps, In (b, maps) items ->
   forall q, in_dom U q -> in_boxb q b = true ->
   forall s, In s maps -> In s (active_maps (preflight U rules) q).
 Proof.
-  intros U rules items Hwf Hn. exact (ProofsPipeline.overlay_sound U rules Hwf Hn items).
+  intros U rules items Hwf. exact (ProofsPipeline.overlay_sound U rules Hwf items).
 Qed.
 Print Assumptions overlay_sound.
 
 (* Completeness and priority: at every location that is not on a lower and an upper edge at once,
    the FIRST output box containing the location lists exactly the (merged) rules firing there, in
-   rule order; and no box contains the location when no rule fires.  Any number of axes, boxes per
-   rule, overlapping / nested / partially overlapping / open-ended / degenerate boxes. *)
+   rule order; and no box contains the location when no rule fires.  Any number of rules, axes, boxes
+   per rule (none included), overlapping / nested / partially overlapping / open-ended / degenerate
+   boxes. *)
 Theorem first_match_is_active : forall U rules p,
-  rules_wf U rules -> (length (preflight U rules) <= 64)%nat -> in_dom U p -> exclusive U rules p ->
+  rules_wf U rules -> in_dom U p -> exclusive U rules p ->
   exists items, overlay_feature_variations U rules = Ok items /\
     first_match items p = match active_maps (preflight U rules) p with [] => None | l => Some l end.
-Proof. intros U rules p Hwf Hn Hd Hex. exact (overlay_first_match U rules Hwf Hn p Hd Hex). Qed.
+Proof. intros U rules p Hwf Hd Hex. exact (overlay_first_match U rules Hwf p Hd Hex). Qed.
 Print Assumptions first_match_is_active.
 
 (* Merging rules with equal substitutions / equal regions does not change what is substituted at a
@@ -80,30 +77,30 @@ Print Assumptions order_irrelevant_when_compatible.
 
 (* The overlay as a whole against the source rules. *)
 Theorem overlay_applies_source_rules : forall U rules p,
-  rules_wf U rules -> (length (preflight U rules) <= 64)%nat -> in_dom U p -> exclusive U rules p ->
+  rules_wf U rules -> in_dom U p -> exclusive U rules p ->
   compatible (active_maps rules p) ->
   exists items, overlay_feature_variations U rules = Ok items /\
     forall g, apply_seq (match first_match items p with Some l => l | None => [] end) g = spec_apply rules p g.
-Proof. intros U rules p Hwf Hn Hd Hex Hc. exact (overlay_correct U rules Hwf Hn p Hd Hex Hc). Qed.
+Proof. intros U rules p Hwf Hd Hex Hc. exact (overlay_correct U rules Hwf p Hd Hex Hc). Qed.
 Print Assumptions overlay_applies_source_rules.
 
 (* ---- the compiled table ------------------------------------------------------------------- *)
 
 (* THE PROPERTY, for the model of the whole pipeline, on the F2Dot14 grid (U = 16384 = 1.0): the
    substitutions a shaper applies at a location equal what the source rules specify there.
-   Hypotheses, each one necessary (see the counterexamples below): at most 64 rules; no two output
+   Hypotheses, each one necessary (see the counterexamples below): no two output
    boxes with the same ConditionSet; the location is inside every axis' range, and not on a lower and
    an upper edge at once; the rules firing at the location do not interfere. *)
 Theorem font_applies_source_rules : forall env rules p f,
-  rules_wf UQ rules -> (length (preflight UQ rules) <= 64)%nat ->
+  rules_wf UQ rules ->
   env_inj env -> no_collision UQ env rules ->
   in_dom UQ p -> in_axes env p -> exclusive UQ rules p ->
   compatible (active_maps rules p) ->
   compile_rules UQ env rules = Ok f ->
   forall g, font_apply f (qpoint_of env p) g = spec_apply rules p g.
 Proof.
-  intros env rules p f Hwf Hn Hinj Hnc Hd Hax Hex Hc Hcomp.
-  exact (font_correct env rules Hwf Hn Hinj Hnc p Hd Hax Hex Hc f Hcomp).
+  intros env rules p f Hwf Hinj Hnc Hd Hax Hex Hc Hcomp.
+  exact (font_correct env rules Hwf Hinj Hnc p Hd Hax Hex Hc f Hcomp).
 Qed.
 Print Assumptions font_applies_source_rules.
 
@@ -111,13 +108,13 @@ Print Assumptions font_applies_source_rules.
    designspace, and none spells out the whole normalized range of its axis (a condition exactly
    (-1, 1) is harmless: cleanup removes it). *)
 Theorem no_collision_without_full_range_conditions : forall env rules,
-  rules_wf UQ rules -> (length (preflight UQ rules) <= 64)%nat -> env_inj env ->
+  rules_wf UQ rules -> env_inj env ->
   (forall c a r, In c (all_boxes rules) -> In (a, r) c -> (fst r <= UQ /\ - UQ <= snd r)%Z) ->
   (forall c a r0 ai, In c (all_boxes rules) -> In (a, r0) c -> In (a, ai) env ->
      r0 <> full_range UQ -> ~ (fst r0 <= ax_minq ai /\ ax_maxq ai <= snd r0)%Z) ->
   no_collision UQ env rules.
 Proof.
-  intros env rules Hwf Hn Hinj Hb Hc. exact (no_collision_source env rules Hwf Hn Hinj Hb Hc).
+  intros env rules Hwf Hinj Hb Hc. exact (no_collision_source env rules Hwf Hinj Hb Hc).
 Qed.
 Print Assumptions no_collision_without_full_range_conditions.
 
@@ -138,13 +135,11 @@ Proof.
   exists f. split; [reflexivity|]. split; [pose proof E as E'; vm_compute in E'; inversion E'; reflexivity|]. split; [reflexivity|].
   apply (font_applies_source_rules env2 ex_rules ex_p f); try exact E.
   - apply rules_wfb_ok. reflexivity.
-  - cbn. lia.
   - intros a1 i1 a2 i2 H1 H2 Hi. cbn in H1, H2.
     destruct H1 as [H1|[H1|[]]], H2 as [H2|[H2|[]]]; inversion H1; inversion H2; subst; cbn in Hi; congruence.
   - (* through the source-level condition *)
     apply no_collision_without_full_range_conditions.
     + apply rules_wfb_ok. reflexivity.
-    + cbn. lia.
     + intros a1 i1 a2 i2 H1 H2 Hi. cbn in H1, H2.
       destruct H1 as [H1|[H1|[]]], H2 as [H2|[H2|[]]]; inversion H1; inversion H2; subst; cbn in Hi; congruence.
     + apply boundedb_ok. reflexivity.
@@ -155,54 +150,41 @@ Proof.
   - apply compatibleb_ok. reflexivity.
 Qed.
 
+(* ---- the conversion of a condition set, and the repaired situations --------------------------- *)
+
+(* The NBox built from the conditions of one condition set (FeatureVariationsProvider::new) holds
+   exactly where ALL its conditions hold, also when an axis occurs more than once (a range written
+   as a minimum and a maximum condition). *)
+Theorem condition_set_box_is_conjunction : forall U l p, in_dom U p ->
+  (in_box U p (box_of_conditions U l) <-> Forall (cond_holds p) l).
+Proof. exact box_of_conditions_conjunction. Qed.
+Print Assumptions condition_set_box_is_conjunction.
+
+(* More than 64 rules (two-word ranks), both former failure modes; a rule without condition set in
+   the middle of the list; instances of the theorems above, computed. *)
+Example sixty_five_rules :
+  length rules65 = 65%nat /\ applied (overlay_feature_variations 1000 rules65) (at1 12) = active_maps rules65 (at1 12) /\
+  length rules65b = 65%nat /\ applied (overlay_feature_variations 1000 rules65b) (at1 50) = active_maps rules65b (at1 50).
+Proof.
+  destruct rules65_fine as [_ [H1 [H2 H3]]]. destruct rules65b_fine as [_ [H4 [_ [_ [H5 H6]]]]].
+  rewrite H2, H3, H5, H6. repeat split; assumption.
+Qed.
+
+Example rule_without_condition_set_is_inert :
+  applied (overlay_feature_variations 16 rules_empty) (at1 6) = active_maps rules_empty (at1 6).
+Proof. destruct rules_empty_fine as [_ [_ [H1 [H2 _]]]]. now rewrite H1, H2. Qed.
+
 (* ---- where the statement fails: counterexamples (each also re-observed on the real code) -------- *)
-
-(* >= 65 rules: the two-word Rank.  (a) index out of bounds; (b) no panic but the box carrying more
-   rules is sorted behind one carrying fewer, so a rule never fires. *)
-Theorem rank_words_refuted :
-  exists U rules, rules_wf U rules /\ length rules = 65%nat /\ overlay_feature_variations U rules = Panic.
-Proof.
-  exists 1000%Z, rules65. destruct rules65_panics as [H1 [H2 H3]]. split; [now apply rules_wfb_ok|]. now split.
-Qed.
-Print Assumptions rank_words_refuted.
-
-Theorem rank_words_priority_refuted :
-  exists U rules p, rules_wf U rules /\ length rules = 65%nat /\ in_dom U p /\ exclusive U rules p /\
-    compatible (active_maps rules p) /\
-    exists items, overlay_feature_variations U rules = Ok items /\
-      exists g, apply_seq (match first_match items p with Some l => l | None => [] end) g <> spec_apply rules p g.
-Proof.
-  exists 1000%Z, rules65b, (at1 50). destruct rules65b_wrong as [H1 [H2 [H3 [H4 [H5 H6]]]]].
-  split; [now apply rules_wfb_ok|]. split; [exact H2|]. split; [intros a; unfold at1; lia|].
-  split; [unfold exclusive; now apply exclusiveb_ok|]. split; [now apply compatibleb_ok|].
-  unfold applied in H5. destruct (overlay_feature_variations 1000 rules65b) as [items| |]; try discriminate.
-  exists items. split; [reflexivity|]. exists 128%N. rewrite H5. unfold spec_apply. rewrite H6. vm_compute. discriminate.
-Qed.
-Print Assumptions rank_words_priority_refuted.
-
-(* A rule without any condition set (it never fires) erases every rule before it. *)
-Theorem empty_region_refuted :
-  exists U rules p, in_dom U p /\ exclusive U rules p /\ compatible (active_maps rules p) /\ (length rules <= 64)%nat /\
-    exists items, overlay_feature_variations U rules = Ok items /\
-      exists g, apply_seq (match first_match items p with Some l => l | None => [] end) g <> spec_apply rules p g.
-Proof.
-  exists 16%Z, rules_empty, (at1 6). destruct rules_empty_wrong as [H1 [H2 [H3 H4]]].
-  split; [intros a; unfold at1; lia|]. split; [unfold exclusive; now apply exclusiveb_ok|]. split; [now apply compatibleb_ok|].
-  split; [cbn; lia|].
-  unfold applied in H3. destruct (overlay_feature_variations 16 rules_empty) as [items| |] eqn:E; try (vm_compute in E; discriminate).
-  exists items. split; [reflexivity|]. exists 0%N. rewrite H3. unfold spec_apply. rewrite H4. vm_compute. discriminate.
-Qed.
-Print Assumptions empty_region_refuted.
 
 (* A location where one condition ends and another begins (wght <= x and wght >= x at wght = x):
    both rules fire by the source, the overlay treats the touching boxes as disjoint. *)
 Theorem touching_edges_refuted :
-  exists U rules p, rules_wf U rules /\ (length rules <= 64)%nat /\ in_dom U p /\ compatible (active_maps rules p) /\
+  exists U rules p, rules_wf U rules /\ in_dom U p /\ compatible (active_maps rules p) /\
     exists items, overlay_feature_variations U rules = Ok items /\
       exists g, apply_seq (match first_match items p with Some l => l | None => [] end) g <> spec_apply rules p g.
 Proof.
   exists 16%Z, rules_touch, (at1 0). destruct rules_touch_wrong as [H1 [H2 [_ [H3 H4]]]].
-  split; [now apply rules_wfb_ok|]. split; [cbn; lia|]. split; [intros a; unfold at1; lia|]. split; [now apply compatibleb_ok|].
+  split; [now apply rules_wfb_ok|]. split; [intros a; unfold at1; lia|]. split; [now apply compatibleb_ok|].
   unfold applied in H3. destruct (overlay_feature_variations 16 rules_touch) as [items| |] eqn:E; try (vm_compute in E; discriminate).
   exists items. split; [reflexivity|]. exists 0%N. rewrite H3. unfold spec_apply. rewrite H4. vm_compute. discriminate.
 Qed.
@@ -212,13 +194,13 @@ Print Assumptions touching_edges_refuted.
    axis whose default is at its minimum is dropped): the record of the higher-priority box is
    replaced, a rule never fires. *)
 Theorem condset_collision_refuted :
-  exists env rules p f, rules_wf UQ rules /\ (length rules <= 64)%nat /\ env_inj env /\ in_dom UQ p /\ in_axes env p /\
+  exists env rules p f, rules_wf UQ rules /\ env_inj env /\ in_dom UQ p /\ in_axes env p /\
     exclusive UQ rules p /\ compatible (active_maps rules p) /\ compile_rules UQ env rules = Ok f /\
     exists g, font_apply f (qpoint_of env p) g <> spec_apply rules p g.
 Proof.
   exists env2, rules_coll, (at2 14336 8192). destruct rules_coll_wrong as [H1 [H2 [H3 [H4 H5]]]].
   unfold font_gives in H4. destruct (compile_rules 16384 env2 rules_coll) as [f| |] eqn:E; try discriminate.
-  exists f. split; [now apply rules_wfb_ok|]. split; [cbn; lia|]. split.
+  exists f. split; [now apply rules_wfb_ok|]. split.
   { intros a1 i1 a2 i2 Ha Hb Hi. cbn in Ha, Hb.
     destruct Ha as [Ha|[Ha|[]]], Hb as [Hb|[Hb|[]]]; inversion Ha; inversion Hb; subst; cbn in Hi; congruence. }
   split; [intros a; unfold at2, UQ; destruct (a =? 2)%N, (a =? 3)%N; lia|]. split.
